@@ -687,11 +687,11 @@ def rest_cases(ctx, n_supported, n_any, seed_offset=0):
         else:
           stats['rest_outside_class_ok'] += 1
         continue
-      if kind == 'positional' and lefthanded:
-        key = 'rest:positional:lefthanded-3hinge-limit'
-      elif cls == 'unsupported' and kind != 'generalized':
+      if cls == 'unsupported' and kind != 'generalized':
         key = f'rest:{kind}:unsupported-stack'
         stats['rest_outside_class_failing'] += 1
+      elif kind == 'positional' and lefthanded:
+        key = 'rest:positional:lefthanded-3hinge-limit'     # defect D7 (fixed by f5f04c1) is back
       else:
         key = f'rest:{kind}:{meta["link_types"]}'
       fails.append(dict(key=key, what=f'{kind}.pipeline.step moves a system at rest (no gravity, control, contact; '
